@@ -194,6 +194,10 @@ class MessageManager(ClientLike):
         self._uid = 0
         self.wlist: List[socket.socket] = []
 
+        # write failures waiting to be handled (see write_failed)
+        self._failed_writes: List[Tuple[Module, MessageHeader, Exception, bool]] = []
+        self._handling_failed_writes = False
+
         # Add message manager to its module list
         self.mm_module = Module(
             uid=0,
@@ -367,10 +371,22 @@ class MessageManager(ClientLike):
         Args:
             module (Module): Module object to remove
         """
+        if self.unregister_module(module):
+            self.send_client_close(module)
+
+    def unregister_module(self, module: Module) -> bool:
+        """Take a module out of all tables and close its connection (sends nothing)
+
+        Args:
+            module (Module): Module object to remove
+
+        Returns:
+            bool: False if the module was not registered any more
+        """
         # Nothing to do if this module was already removed (e.g. by a delivery failure
         # nested in the handling of its own request)
         if self.modules.get(module.conn) is not module:
-            return
+            return False
 
         # Drop all subscriptions for this module
         for msg_type in module.subs:
@@ -381,9 +397,8 @@ class MessageManager(ClientLike):
 
         # Drop from our module mapping
         module.close()
-
-        self.send_client_close(module)
         del self.modules[module.conn]
+        return True
 
     def disconnect_module(self, src_module: Module):
         """Disconnect module
@@ -606,12 +621,7 @@ class MessageManager(ClientLike):
                         module.send_message(header, data)
                         module.drops = 0
                 except ConnectionError as err:
-                    self.remove_module(module)
-                    self.logger.error(
-                        f"Connection Error on write to {module!s} - {err!s}"
-                    )
-                    print("x", end="", flush=True)
-                    self.send_failed_message(module, header, time.perf_counter())
+                    self.write_failed(module, header, err)
             elif module.is_logger:
                 # Block until logger is ready
                 select.select([], [module.conn], [], None)
@@ -620,15 +630,7 @@ class MessageManager(ClientLike):
                     module.send_message(header, data)
                     module.drops = 0
                 except ConnectionError as err:
-                    self.remove_module(module)
-                    self.logger.error(
-                        f"Connection Error on write to {module!s} - {err!s}"
-                    )
-                    print("x", end="", flush=True)
-                    # this could result in infinite recursion,
-                    # this is prevented by send_failed_message returning if
-                    # failed message type is failed_message.
-                    self.send_failed_message(module, header, time.perf_counter())
+                    self.write_failed(module, header, err)
 
             else:
                 module.drops += 1
@@ -657,13 +659,43 @@ class MessageManager(ClientLike):
                 module.send_message(header, payload)
                 module.drops = 0
             except ConnectionError as err:
-                self.remove_module(module)
+                self.write_failed(module, header, err)
+
+    def write_failed(self, module: Module, header: MessageHeader, err: Exception):
+        """Handle a failed write to a module
+
+        The module is removed, the error is logged and a FAILED_MESSAGE is published.
+        Each of these steps sends messages itself and can run into further dead
+        connections. When many clients die at the same time handling every failure
+        from inside the previous one exhausts the call stack, so failures that are
+        discovered while another one is being handled are queued and handled one
+        after the other.
+
+        Args:
+            module (Module): Module the write failed for
+            header (MessageHeader): Header of the message that could not be delivered
+            err (Exception): The connection error
+        """
+        # Nothing is written to the module any more from here on
+        removed = self.unregister_module(module)
+        self._failed_writes.append((module, header, err, removed))
+        if self._handling_failed_writes:
+            return
+
+        self._handling_failed_writes = True
+        try:
+            while self._failed_writes:
+                module, header, err, removed = self._failed_writes.pop(0)
+                if removed:
+                    self.send_client_close(module)
                 self.logger.error(f"Connection Error on write to {module!s} - {err!s}")
                 print("x", end="", flush=True)
                 # this could result in infinite recursion,
                 # this is prevented by send_failed_message returning if
                 # failed message type is failed_message.
                 self.send_failed_message(module, header, time.perf_counter())
+        finally:
+            self._handling_failed_writes = False
 
     def send_message(
         self,
@@ -711,10 +743,7 @@ class MessageManager(ClientLike):
         try:
             src_module.send_message(header, b"")
         except ConnectionError as err:
-            self.remove_module(src_module)
-            self.logger.error(f"Connection Error on write to {src_module!s} - {err!s}")
-            print("x", end="", flush=True)
-            self.send_failed_message(src_module, header, time.perf_counter())
+            self.write_failed(src_module, header, err)
 
         # Always forward to logger modules
         self.send_to_loggers(header, b"")
